@@ -72,6 +72,9 @@ func (s *Solver) start() error {
 	if err := s.proc.Start(); err != nil {
 		return err
 	}
+	if strings.Contains(s.Cmd[0], "cvc5") {
+		s.send("(set-logic ALL)\n")
+	}
 	s.send("(set-option :print-success false)\n")
 	if strings.Contains(s.Cmd[0], "z3") {
 		s.send(fmt.Sprintf("(set-option :timeout %d)\n", s.TimeoutMs))
